@@ -449,6 +449,29 @@ def run(ctx):
         _reuse(ctx, _c15.run, ("C15.carry", "C15.xp", "C15.dtype"), "C13np", f"conversion rule shared with C15: {enc_fns[0].qualname if hasattr(enc_fns[0], 'qualname') else enc_fns[0].ident.split(':')[1]} "
                "writes self.to_numpy().to_dict(), so a field the NumPy conversion drops or alters is not in the file", only=lambda f: f.construct.endswith(".to_numpy"))
 
+        # ... and that conversion describes the set as it is *now*: to_numpy() builds its result in the call (a memoised copy handed out again does not
+        # know about a scalar field, a temperature or parameter names assigned since it was made -- the samplers fill sets after construction)
+        for cn_ in CLASSES:
+            C_ = repo.cls(f"{SAMPLES_MOD}:{cn_}")
+            tn_ = C_.resolve("to_numpy")
+            if tn_ is None:
+                continue
+            evn_ = Evaluator(repo, max_depth=3)
+            rn_ = T.strip_raise(evn_.run(tn_, C_))
+            built = {e_.result for e_ in evn_.events if e_.callee.startswith("new:")}
+            leaves_ = list(T.phi_leaves(rn_))
+            other_ = [l_ for l_ in leaves_ if l_ not in built and not (l_ and l_[0] == "obj")]
+            # kept state: something read from the object (an attribute, an entry of its __dict__); an unresolved call is undecided, not a verdict
+            stale_ = [l_ for l_ in other_ if l_[0] == "attr" or (l_[0] == "f" and l_[1] in ("method:get", "method:pop", "getattr", "builtins.getattr") and any(
+                x_ == SELF or (x_ and x_[0] == "attr" and x_[1] == SELF) for x_ in T.subterms(l_)))]
+            if other_ and not stale_:
+                ctx.unknown("C13np.fresh", f"{C_.ident}.to_numpy", loc_of(tn_), f"{cn_}.to_numpy() returns {T.show(other_[0])[:80]}, which the analysis cannot resolve to a construction", disc=cn_)
+                continue
+            ctx.decide(not stale_, "C13np.fresh", f"{C_.ident}.to_numpy", loc_of(tn_), f"{cn_}.to_numpy() returns a set built in that call",
+                       f"{cn_}.to_numpy() can return {T.show(stale_[0])[:80] if stale_ else ''}, an object that was not built in this call: a copy kept from an earlier conversion is written to the "
+                       "file although log_evidence, beta or the parameter names were assigned since (the samplers set them after construction), so the saved object is not the object in memory",
+                       disc=cn_)
+
     # (1) sentinels
     enc, dec = repo.func(f"{U}:encode_for_hdf5"), repo.func(f"{U}:decode_from_hdf5")
     emitted = {c for c in str_consts(enc.node) if c.startswith("__") and c.endswith("__")}
@@ -833,6 +856,9 @@ MUTANTS += [
 ]
 MUTANTS += [
     M("only the saved flow options named in a signature are handed to the rebuilt instance", _A, "config_dict = {**flow_kwargs, **config_dict}", "flow_kwargs = {k: v for k, v in flow_kwargs.items() if k in signature(cls.__init__).parameters}\n        config_dict = {**flow_kwargs, **config_dict}", "C13.config"),
+]
+MUTANTS += [
+    M("the NumPy copy used for saving is memoised on the set", _S, "def to_numpy(self, dtype: Any | str | None = None):", "def to_numpy(self, dtype: Any | str | None = None):\n        if self.__dict__.get(\"_np\") is not None:\n            return self.__dict__.get(\"_np\")", "C13np.fresh"),
 ]
 NEUTRALS = [
     M("arrays with at least one axis written gzip-compressed", "src/aspire/utils.py", "g.create_dataset(full_key, data=encode_for_hdf5(value))",
